@@ -359,6 +359,7 @@ theorem invF_move (s : St) (m : Move) (hu : InvU s) (h : InvF s) : InvF (move s 
       · exact h
     case dial i => split <;> first | exact invF_frame s _ h rfl rfl | exact h
     case advance dt => exact invF_frame s _ h rfl rfl
+    case connFail i => split <;> first | exact invF_frame s _ h rfl rfl | exact h
   case mkPair i =>
     unfold mkPair; dsimp only; split
     · exact invF_updSet { s with used := upd s.used i true, order := s.order ++ [i] } i { hasCb := true }
